@@ -1,8 +1,8 @@
 CONSTANTS NHol = 3
           NWk = 2
           NSess = 3
-          QDays = {1, 2, 3, 4, 5}
-          QSecs = {0, 46800, 81000}
+          QDays = {2, 3, 4}
+          QSecs = {46800, 81000}
           Depth = 0
           KeepHist = FALSE
           AskMod = 1
